@@ -104,7 +104,8 @@ MAKE_FILTERS = ['none', 'none', 'none', 'gzip', 'bzip2', 'xz', 'zstd', 'lz4', 'c
 MAKE_OPTIONS = {
     '7zip': ['7zip:compression=store', '7zip:compression=deflate', '7zip:compression=bzip2', '7zip:compression=lzma1',
              '7zip:compression=lzma2', '7zip:compression=ppmd', '7zip:compression=zstd'],
-    'zip': ['zip:compression=store', 'zip:compression=deflate', 'zip:zip64', 'zip:compression=store,zip:zip64'],
+    'zip': ['zip:compression=store', 'zip:compression=deflate', 'zip:zip64', 'zip:compression=store,zip:zip64',
+            'zip:encryption=zipcrypt', 'zip:encryption=aes128', 'zip:encryption=aes256,zip:compression=store'],
     'xar': ['xar:compression=none', 'xar:compression=gzip', 'xar:compression=bzip2', 'xar:compression=xz',
             'xar:checksum=none', 'xar:checksum=md5', 'xar:toc-checksum=none'],
     'iso9660': ['iso9660:!rockridge', 'iso9660:joliet=long', 'iso9660:zisofs', 'iso9660:!pad', 'iso9660:iso-level=4'],
@@ -218,6 +219,9 @@ class Cons(ReadBase):
         # every writable format under a seekable and under a purely sequential source, then random combinations
         cover = [(f'{fmt}+none', f'make fmt={fmt} filt=none seed={rng.randrange(1, 10**6)} n={rng.choice([3, 6])}', 60000, s_)
                  for fmt in MAKE_FORMATS for s_ in ('cbk', 'cb')]
+        # structural options of the container formats with large members (state carried from one entry into the next)
+        cover += [(f'{fmt}+none', f'make fmt={fmt} filt=none seed={rng.randrange(1, 10**6)} n=4 big=1 opt={o}', 600000, 'cbk')
+                  for fmt in ('7zip', 'zip', 'xar') for o in MAKE_OPTIONS[fmt]]
         for label, mk, size, fsrc in cover + [m + (None,) for m in made_archives(rng, 20 if tier == 'quick' else 300)]:
             src = fsrc or rng.choice(['cbk', 'cbk', 'cb', 'cbs'])
             blk = rng.choice(['w', '512', '10240', 'r7'])
